@@ -721,7 +721,7 @@ func init() {
 		c.Group("C07/heartbeat-fields", "(shared with C06) the region built from a heartbeat carries the peers, leader, pending peers and approximate size the per-store statistics are computed from", func() {
 			ruleHeartbeatFields(c, map[string]string{"meta": "GetRegion", "leader": "GetLeader", "pendingPeers": "GetPendingPeers", "downPeers": "GetDownPeers", "approximateSize": "GetApproximateSize", "approximateKeys": "GetApproximateKeys"})
 		})
-		c.Group("C07/tree-lookups", "queries start from find() (containment checked); random picks compute each range's index interval afresh", func() { ruleTreeLookups(c) })
+		c.Group("C07/tree-lookups", "queries start from find() (containment checked); random picks compute each range's index interval afresh", func() { ruleAdjacentAndScanBounds(c); ruleTreeLookups(c) })
 		c.Group("C07/role-index-table", "leaders/followers are fed from the voters (split on the leader test), learners from the learners, pending peers from the pending peers, both when inserting and when updating sizes", func() { ruleRoleIndexTable(c) })
 		c.Group("C07/index-discipline", "the shared item is re-pointed only after the old tree/sub-tree entries were removed; sub-tree rebuild is decided on leader, voters, learners and pending peers; range change on both keys; removals hit every index; mutators run under the BasicCluster write lock", func() { ruleRegionsInfoDiscipline(c); ruleRemoveIsAtomic(c) })
 		c.Group("C07/btree-recycling", "recycled btree nodes are cleared in every slice (items, children, rank indices); rank indices are maintained by the structural operations", func() { ruleBTreeRecycling(c) })
@@ -792,4 +792,56 @@ func ruleRegionKeysImmutable(c *Ctx) {
 	if n < 2 {
 		c.Undec(rule, "assignments of region meta keys in the module", "at least 2 (the hex formatter)", "", fmt.Sprint(n))
 	}
+}
+
+// ruleAdjacentAndScanBounds: two lookups whose boundary tests are the whole
+// point. GetAdjacentRegions answers a neighbour only when it is contiguous with
+// the region (prev.end == start, end == next.start): across a hole there is no
+// neighbour. ScanRange stops at the first region that *starts at or after* the
+// exclusive end key.
+func ruleAdjacentAndScanBounds(c *Ctx) {
+	P := c.P
+	rule := c.Prop + "/tree-lookups"
+	adj := P.Method("server/core", "RegionsInfo", "GetAdjacentRegions")
+	getRegion := F(P.Method("server/core", "RegionsInfo", "GetRegion"))
+	isEqual := func(cl *ssa.Call) bool {
+		f := cl.Call.StaticCallee()
+		return f != nil && f.Pkg != nil && f.Pkg.Pkg.Path() == "bytes" && f.Name() == "Equal"
+	}
+	n := c.mustPrecede(rule, adj, "neighbour answered by", instrCallMatcher(getRegion), []Ev{guardCall("bytes.Equal(end key, start key) of the two regions", true, isEqual)}, all,
+		"a neighbour is answered only when its range is contiguous with the region's (no key hole in between)")
+	if n < 2 {
+		c.Undec(rule, "neighbour lookups in "+fnName(adj), "2 (previous, next)", P.pos(adj.Pos()), fmt.Sprint(n))
+	}
+	scan := P.Method("server/core", "RegionsInfo", "ScanRange")
+	getStart := F(P.Method("server/core", "RegionInfo", "GetStartKey"))
+	okStop := false
+	for _, f := range append([]*ssa.Function{scan}, scan.AnonFuncs...) {
+		for _, b := range f.Blocks {
+			iff, ok := b.Instrs[len(b.Instrs)-1].(*ssa.If)
+			if !ok {
+				continue
+			}
+			for si := 0; si < 2; si++ {
+				cond, pos := normCond(iff.Cond, si == 0)
+				r, okR := relOf(cond, pos)
+				if !okR {
+					continue
+				}
+				cl, _ := callOf(r.X)
+				k, isC := constInt(r.Y)
+				if cl == nil || !isC || k != 0 || r.Op != token.GEQ {
+					continue
+				}
+				g := cl.Call.StaticCallee()
+				if g == nil || g.Pkg == nil || g.Pkg.Pkg.Path() != "bytes" || g.Name() != "Compare" || len(cl.Call.Args) != 2 || !valueIsCallTo(cl.Call.Args[0], getStart) {
+					continue
+				}
+				if edgeLeadsStraightTo(b, si, boolReturn(false)) {
+					okStop = true
+				}
+			}
+		}
+	}
+	c.Check(okStop, rule, "end of "+fnName(scan), "the scan stops at the first region whose start key is >= the end key (the end key is exclusive)", P.pos(scan.Pos()), "no `bytes.Compare(region start, end key) >= 0 ⇒ stop` edge")
 }
